@@ -72,3 +72,14 @@ Definition validate_offline (req : string) (l : list dentry) (e : dentry) : list
          "viol:offline-pick-not-newest" ++
   tag_if (negb (de_whole e)) "viol:offline-opens-partial-entry" ++
   tag_if (negb (String.eqb (de_file e) req)) "viol:offline-entry-of-another-file".
+
+(* ---- file names of cached revisions --------------------------------------------------- *)
+(* observed: for one cache file (index or not), ETags (the text after trimming the quotes) with
+   the encoded form etagFromResponse gave and the base name cacheFileFromEtag gave.  Sound: two
+   different ETags never share a file name. *)
+Record ename := { en_raw : string; en_enc : string; en_base : string }.
+Definition NamesInjective (l : list ename) : Prop :=
+  forall a b, In a l -> In b l -> en_base a = en_base b -> en_raw a = en_raw b.
+Definition validate_names (l : list ename) : list string :=
+  tag_if (negb (List.forallb (fun a => List.forallb (fun b => negb (String.eqb (en_base a) (en_base b)) || String.eqb (en_raw a) (en_raw b)) l) l))
+         "viol:two-etags-one-file-name".
